@@ -365,6 +365,21 @@ def inline_result_combinators(body, qual, option=False):
             if tx in (")", "]", "}"):
                 j = pair[j] - 1
                 continue
+            if tx == ">":
+                # turbofish `::<A, B>` inside the receiver path: jump to its `::`
+                depth, q = 0, j
+                while q >= 0:
+                    if toks[q].text == ">":
+                        depth += 1
+                    elif toks[q].text == "<":
+                        depth -= 1
+                        if depth == 0:
+                            break
+                    q -= 1
+                if q > 0 and toks[q - 1].text == "::":
+                    j = q - 2
+                    continue
+                break
             if tx in POSTFIX_STOP or (toks[j].kind == "punct" and tx not in (".", "::")):
                 break
             j -= 1
@@ -1313,7 +1328,7 @@ class Gen:
         lines = self.out[s0 - 1:e0]
         i = 0
         while i < len(lines):
-            m = re.match(r"^\s*(pub\s+)?(broadcast\s+)?proof fn ([A-Za-z0-9_]+)", lines[i])
+            m = re.match(r"^\s*(pub\s+)?(broadcast\s+)?(?:proof fn|fn (?=client_))([A-Za-z0-9_]+)", lines[i])
             if m:
                 tags = []
                 j = i - 1
